@@ -923,6 +923,12 @@ func ruleTickGate(c *Ctx, r *R) {
 			if cal := call.Call.StaticCallee(); cal != nil && cal.Name() == "Stop" && cal.Signature.Recv() != nil && isNamedType(cal.Signature.Recv().Type(), "time", "Timer") {
 				stops = true
 			}
+			// t.stopPending(), the field only ever holding the pending timer's bound Stop method
+			if !call.Call.IsInvoke() && call.Call.StaticCallee() == nil {
+				if f := resolveFuncValue(call.Call.Value, 0); f != nil && f.Name() == "Stop" && f.Signature.Recv() != nil && isNamedType(f.Signature.Recv().Type(), "time", "Timer") {
+					stops = true
+				}
+			}
 		}
 	}
 	r.ok(stops, "xtime.JitterTicker.Stop|stops-timer", stop.Pos(), "Stop must stop the pending timer")
